@@ -316,8 +316,10 @@ class BaseTemplate:
             try:
                 source = self._compile(body, builtins)
                 if self.debug:
-                    source = "# template: {}\n#\n{}".format(
-                        self.filename, source)
+                    # (as a literal: the name is arbitrary text and the
+                    # comment has to end where its line ends)
+                    source = "# template: {!r}\n#\n{}".format(
+                        str(self.filename), source)
                 if self.keep_source:
                     self.source = source
                 cooked = self.loader.build(source, filename)
